@@ -1603,3 +1603,92 @@ func splitLengthSample(f *ssa.Function, side *ssa.Alloc) *lengthSample {
 	}
 	return nil
 }
+
+// ---------------------------------------------------------------------------
+// C08: physical line numbers
+
+// physicalLines: (*token.File).MergeLine (and LineStart) take PHYSICAL line
+// numbers — indexes into the file's line table — and panic on anything else.
+// (*token.File).Line, (*token.File).Position(p).Line and
+// (*token.FileSet).Position(p).Line are adjusted by //line directives, which a
+// target file may contain (generated code usually does): fed into MergeLine
+// they are out of range and gopatch panics (F12). The line numbers handed to a
+// physical-line consumer must come from PositionFor(p, false).
+func physicalLines(r *an.Run, rule string) {
+	r.Rule(rule)
+	n := 0
+	for _, f := range r.P.ModuleFuncs() {
+		rel := strings.TrimPrefix(strings.TrimPrefix(an.FuncPkgPath(f), an.Module), "/")
+		if strings.HasPrefix(rel, "tools") {
+			continue
+		}
+		for _, c := range an.CallsTo(f, "(*go/token.File).MergeLine", "(*go/token.File).LineStart") {
+			n++
+			bad := adjustedLineSource(c.Common().Args[1])
+			key := short(f) + "|" + lastSegment(an.CalleeName(c))
+			if bad == nil {
+				r.Pass(key, c.Pos(), "the line number handed to %s is a physical one (PositionFor(p, false)), never one adjusted by //line directives", lastSegment(an.CalleeName(c)))
+			} else {
+				r.Fail(key, c.Pos(), "%s hands %s a line number that comes from %s, which is adjusted by //line directives: for a target file that contains one the number is not a valid index into the file's line table and go/token panics", short(f), lastSegment(an.CalleeName(c)), an.TrimModule(an.CalleeName(bad)))
+			}
+		}
+	}
+	r.Count("physical-line consumers", n)
+	r.Min("physical-line consumers", 2)
+}
+
+func lastSegment(s string) string {
+	if i := strings.LastIndex(s, "."); i >= 0 {
+		return s[i+1:]
+	}
+	return s
+}
+
+// adjustedLineSource follows v backwards (data flow, local memory, map keys
+// and values, slices built by append) and returns a call that produces a
+// //line-adjusted line number, if v may come from one.
+func adjustedLineSource(v ssa.Value) ssa.CallInstruction {
+	seen := map[ssa.Value]bool{}
+	work := []ssa.Value{v}
+	var f *ssa.Function
+	if in, ok := v.(ssa.Instruction); ok {
+		f = in.Parent()
+	}
+	for len(work) > 0 {
+		x := work[len(work)-1]
+		work = work[:len(work)-1]
+		for y := range an.BackSlice(x, an.SliceOpts{ThroughCalls: true, ThroughMemory: true}) {
+			if seen[y] {
+				continue
+			}
+			seen[y] = true
+			switch t := y.(type) {
+			case *ssa.Call:
+				if an.IsCallTo(t, "(*go/token.File).Line") {
+					return t
+				}
+				if an.IsCallTo(t, "(*go/token.File).Position", "(*go/token.FileSet).Position") {
+					return t
+				}
+				if an.IsCallTo(t, "(*go/token.File).PositionFor", "(*go/token.FileSet).PositionFor") {
+					a := t.Call.Args
+					if k, isc := an.ConstBool(a[len(a)-1]); !isc || k {
+						return t
+					}
+				}
+			case *ssa.Range:
+				// ranging over a map: its keys and values are whatever was put in
+				if f != nil {
+					for _, b := range f.Blocks {
+						for _, in := range b.Instrs {
+							if mu, ok := in.(*ssa.MapUpdate); ok && an.Root(mu.Map) == an.Root(t.X) {
+								work = append(work, mu.Key, mu.Value)
+							}
+						}
+					}
+				}
+			}
+		}
+	}
+	return nil
+}
